@@ -256,6 +256,15 @@ func FlattenCases(p *core.Prog, r *core.Report) {
 	bad := ""
 	var badPos token.Pos
 	ast.Inspect(fd.Body, func(nd ast.Node) bool {
+		if ta, isTA := nd.(*ast.TypeAssertExpr); isTA && ta.Type != nil {
+			// `x, ok := loc.(T)`: the same dispatch as a one-case type switch
+			n++
+			name := strings.TrimPrefix(core.NamedOf(info.Types[ta.Type].Type), gts+".")
+			if name != "Ordered" && bad == "" {
+				bad, badPos = name, ta.Pos()
+			}
+			return true
+		}
 		ts, ok := nd.(*ast.TypeSwitchStmt)
 		if !ok {
 			return true
